@@ -84,6 +84,30 @@ func deepStruct(depth int) []byte {
 	return out
 }
 
+// deepList encodes Struct{fields{"k": Value}} where the Value is a chain of `depth` nested
+// list_value / values wrappers (the cheapest recursion per byte the schema offers).
+func deepList(depth int) []byte {
+	v := make([]int, depth+1) // Value body sizes
+	l := make([]int, depth+1) // ListValue body sizes
+	for i := 1; i <= depth; i++ {
+		l[i] = 1 + uvarintLen(uint64(v[i-1])) + v[i-1]
+		v[i] = 1 + uvarintLen(uint64(l[i])) + l[i]
+	}
+	entry := 3 + 1 + uvarintLen(uint64(v[depth])) + v[depth]
+	out := make([]byte, 0, entry+8)
+	out = append(out, 1<<3|wtBytes)
+	out = appVarint(out, uint64(entry))
+	out = append(out, 1<<3|wtBytes, 1, 'k', 2<<3|wtBytes)
+	out = appVarint(out, uint64(v[depth]))
+	for i := depth; i >= 1; i-- {
+		out = append(out, 6<<3|wtBytes) // Value.list_value
+		out = appVarint(out, uint64(l[i]))
+		out = append(out, 1<<3|wtBytes) // ListValue.values
+		out = appVarint(out, uint64(v[i-1]))
+	}
+	return out
+}
+
 func uvarintLen(v uint64) int {
 	n := 1
 	for v >= 0x80 {
@@ -223,7 +247,14 @@ func mutate(r *rand.Rand, method string, enc []byte, mut string, tier string) []
 		}
 		switch method {
 		case mCreate:
-			b = appBytes(b, 5, deepStruct(depth)) // CreateTableRequest.config is a recursive Struct
+			// CreateTableRequest.config is a recursive Struct
+			if tier == "thorough" && r.Intn(4) == 0 {
+				b = appBytes(b, 5, deepList(450000)) // ≈3.6 MiB, as deep as one message can get
+			} else if r.Intn(2) == 0 {
+				b = appBytes(b, 5, deepList(depth))
+			} else {
+				b = appBytes(b, 5, deepStruct(depth))
+			}
 		case mTxn:
 			// a RequestOp whose put carries, as unknown field, deeply nested groups
 			inner := appBytes(nil, 1, []byte("a"))
